@@ -244,7 +244,7 @@ Proof.
   induction h as [|l r IH]; intros tq0 ts0 aq as_.
   - reflexivity.
   - rewrite run_cons.
-    destruct l as [k m|k|k| |]; try destruct k; simpl;
+    destruct l as [k m|k|k| | |]; try destruct k; simpl;
       rewrite ?traffic_denote, ?reset_denote, ?verify_denote, IH; reflexivity.
 Qed.
 
@@ -338,7 +338,7 @@ Proof.
   unfold drop_api in *. simpl filter.
   destruct (not_api_traffic l) eqn:E.
   - rewrite !run_cons, !IH. reflexivity.
-  - destruct l as [k m|k|k| |]; simpl in E; try discriminate.
+  - destruct l as [k m|k|k| | |]; simpl in E; try discriminate.
     apply negb_false_iff in E.
     rewrite (run_cons repaired s (Traffic k m) r). simpl.
     rewrite traffic_api_id, set_get by assumption.
@@ -752,3 +752,23 @@ Qed.
 Lemma expected_at_atomic : forall k t ms,
   expected_at k (fun _ => ms) (fun _ => true) t = expected k ms t.
 Proof. intros. rewrite expected_at_const, filter_true. reflexivity. Qed.
+
+(* a refused handler call changes nothing and answers nothing *)
+Theorem refused_calls_change_nothing : forall vr h s, run vr s (drop_refused h) = run vr s h.
+Proof.
+  intros vr. induction h as [|l r IH]; intros s; [reflexivity|].
+  unfold drop_refused in *. simpl filter.
+  destruct (not_refused l) eqn:E.
+  - rewrite !run_cons, !IH. reflexivity.
+  - destruct l; simpl in E; try discriminate.
+    rewrite (run_cons vr s Refused r). simpl. rewrite IH.
+    destruct (run vr s r); reflexivity.
+Qed.
+
+Theorem refused_spec : forall c h, spec_outputs c (drop_refused h) = spec_outputs c h.
+Proof.
+  intros c h. unfold spec_outputs. generalize (@nil msg) at 1 3. generalize (@nil msg).
+  induction h as [|l r IH]; intros aq as_; [reflexivity|].
+  unfold drop_refused in *. simpl filter.
+  destruct l as [[] m|[]|[]| | |]; simpl; rewrite ?IH; reflexivity.
+Qed.
